@@ -73,6 +73,18 @@ where
     serial.eval_poly(&mut want, &inp).expect("serial ParallelSum::eval_poly");
     let mut traces: HashSet<Vec<(usize, bool)>> = HashSet::new();
     let mut bad: Option<(Vec<(usize, bool)>, String)> = None;
+    // a clone of a clone of the gadget (a worker's private copy) must behave like the original (default schedule)
+    {
+        let multi_clone = multi.clone().clone();
+        let mut out = vec![Field128::from(0xDEADu128); out_len];
+        let mut ch = Chooser::new(vec![]);
+        let (res, _) = with_oracle(pool, n_logical, &mut ch, || catch(|| multi_clone.eval_poly(&mut out, &inp).map_err(|e| e.to_string())));
+        run.count("evaluations", 1);
+        if !matches!(res, Ok(Ok(()))) || out != want {
+            run.fail(&format!("gadget/{gname}/clone"), &format!("a clone of ParallelSumMultithreaded<{gname}>(chunks={chunks}, calls={calls}) does not evaluate like the serial gadget: {:?}", res.map(|r| r.map(|_| "output differs"))), json!({"inner": gname, "chunks": chunks, "calls": calls}));
+            return;
+        }
+    }
     let stats = explore(bound, max_exec, |ch| {
         // output buffer pre-filled with junk: the gadget must overwrite all of it
         let mut out = vec![Field128::from(0xDEADu128); out_len];
